@@ -192,6 +192,12 @@ Section P.
   Qed.
 End P.
 
+Lemma drain_terminates : forall decode fuel buf, (length buf <= fuel)%nat ->
+  drain decode fuel buf = drain_all decode buf /\ split_frame (snd (drain_all decode buf)) = None.
+Proof.
+  intros decode fuel buf H. split; [apply drain_fuel; exact H|apply (residual_incomplete decode (length buf)); apply le_n].
+Qed.
+
 Lemma valid_frames bk fs : Forall (fun f => wf f = true /\ lenN (encode f) < 2 ^ 24) fs ->
   drain_all (decode bk) (concat (map (fun f => delimit (encode f)) fs)) = (map (fun f => IFrame (norm f)) fs, []).
 Proof.
